@@ -48,19 +48,24 @@ var c02Catalogue = []string{
 	"resume-unverified",      // a session created under InsecureSkipVerify is resumed under a verifying configuration sharing the cache
 	"resume-unverified-mixed", // same, but only the ENCRYPTION certificate of the recorded pair is untrusted
 	"wrong-name-ip",          // the client is configured with an IP literal as server name; the certificates do not list it
+	"recent-expired",         // certificates that ended mid-2029: expired at the configured time (2030), in date on the wall clock (2024) and on a real clock
+	"late-honest",            // control: certificates in date from mid-2029 - valid at the configured time only
+	"skx-signed-by-enc-key",  // genuine certificate pair, but the peer holds only the encryption key and signs ServerKeyExchange with it
+	"valid-then-expired",     // an honest connection succeeds; later the same configuration (same root pool object) reports a time after the certificates' end
+	"valid-then-expired-resume", // same with a session cache: the server tries to resume the session made while the certificates were valid
 }
 
 func (c02) ID() string    { return "C02" }
 func (c02) Level() string { return "fault_enumeration" }
 func (c02) Rule() string {
-	return "enumerates the impostor catalogue (untrusted CA, expired, not yet valid, wrong name, single certificate, swapped, mixed CAs; ServerKeyExchange signed by another key / over other randoms / over another certificate or other ECDH parameters / corrupted / empty / omitted; no encryption key; no keys at all; unverified session resumed under a verifying configuration) x 4 suites x InsecureSkipVerify on/off x both stacks, plus honest controls; thorough repeats it under many seeds (segmentation, schedules, fresh randoms). A scripted server built on the independent reference implementation plays the impostor against a real client and keeps its transcript and keys consistent. distinct = distinct (stack, suite, verify flag, impostor, outcome); non-trivial = the scripted flow reached the deviating step"
+	return "enumerates the impostor catalogue (untrusted CA, expired, not yet valid, wrong name, single certificate, swapped, mixed CAs; ServerKeyExchange signed by another key / over other randoms / over another certificate or other ECDH parameters / corrupted / empty / omitted; no encryption key; ServerKeyExchange signed with the encryption key; no keys at all; unverified session resumed under a verifying configuration; certificates that were in date at an earlier successful connection and are expired at the time now configured, with and without a cached session) x 4 suites x InsecureSkipVerify on/off x both stacks, plus honest controls; thorough repeats it under many seeds (segmentation, schedules, fresh randoms). A scripted server built on the independent reference implementation plays the impostor against a real client and keeps its transcript and keys consistent. distinct = distinct (stack, suite, verify flag, impostor, outcome); non-trivial = the scripted flow reached the deviating step"
 }
 func (c02) Components() (real, stub []string) {
 	return []string{"tlcp/dtlcp client (instrumented): certificate verification, key agreement checks, Finished check, session cache"},
 		[]string{"server: scripted peer on package ref (deliberately deviating)", "transport, clock, randomness, scheduler"}
 }
 func (c02) Assumptions() []string {
-	return []string{"the scripted peer is correct where it is honest (the honest controls must complete and exchange data, which also validates it)", "static PKI judged at 2030-01-01"}
+	return []string{"the scripted peer is correct where it is honest (the honest controls must complete and exchange data, which also validates it)", "static PKI judged at 2030-01-01, the date the configurations report; the wall clock of the simulation reads 2024 (inside the validity of the expired fixtures)"}
 }
 
 var (
@@ -100,9 +105,9 @@ func (c02) Make(tier string, seed uint64, i int) *Case {
 // c02MustFail says whether the client has to refuse this impostor.
 func c02MustFail(imp string, skip bool) bool {
 	switch imp {
-	case "honest":
+	case "honest", "late-honest":
 		return false
-	case "untrusted-ca", "expired", "not-yet-valid", "wrong-name", "mixed-ca", "wrong-name-ip", "resume-unverified-mixed":
+	case "untrusted-ca", "expired", "not-yet-valid", "wrong-name", "mixed-ca", "wrong-name-ip", "resume-unverified-mixed", "valid-then-expired", "valid-then-expired-resume", "recent-expired":
 		return !skip // certificate checks only: acceptable once verification is disabled (keys are held)
 	case "resume-unverified":
 		return !skip
@@ -157,6 +162,10 @@ func (c02) Run(c *Case, src *vs.Src) *Result {
 		use("server_expired")
 	case "not-yet-valid":
 		use("server_future")
+	case "recent-expired":
+		use("server_recent")
+	case "late-honest":
+		use("server_late")
 	case "wrong-name":
 		use("server_wrongname")
 	case "single-cert":
@@ -199,6 +208,10 @@ func (c02) Run(c *Case, src *vs.Src) *Result {
 		ownEnc = "server_untrusted_enc"
 	case "wrong-name-ip":
 		cc.ServerName = "192.0.2.10"
+	case "skx-signed-by-enc-key":
+		o.SigKey = sm2Key("server_enc")
+	case "valid-then-expired", "valid-then-expired-resume":
+		cc.RootPool = pool(cc.Roots)
 	}
 	type connOut struct {
 		hsErr    error
@@ -276,6 +289,28 @@ func (c02) Run(c *Case, src *vs.Src) *Result {
 		o2 := *o
 		o2.Resume, o2.Master = true, h1.Peer.Master
 		co, _, _ = runConn(1, &c2, &o2, []string{"rCH", "SH", "CCS", "FIN", "rFLIGHT", "APP", "rAPP"})
+	} else if p.Impostor == "valid-then-expired" || p.Impostor == "valid-then-expired-resume" {
+		// connection 1: everything is in order at the configured date
+		c1 := *cc
+		if p.Impostor == "valid-then-expired-resume" {
+			c1.Cache = "shared"
+		}
+		first, _, h1 := runConn(0, &c1, o, ops)
+		if first.hsErr != nil || first.reason != vs.Done {
+			r.Violate("setup", sigp+" setup-failed", "the first connection (certificates in date) failed: %v (%s)", first.hsErr, first.reason)
+			return r
+		}
+		// connection 2: same roots, name, certificates and (if any) cache; the configured clock now reads 2046,
+		// after the certificates' end in 2045
+		c2 := c1
+		c2.TimeYear = 2046
+		if p.Impostor == "valid-then-expired-resume" {
+			o2 := *o
+			o2.Resume, o2.Master = true, h1.Peer.Master
+			co, _, _ = runConn(1, &c2, &o2, []string{"rCH", "SH", "CCS", "FIN", "rFLIGHT", "APP", "rAPP"})
+		} else {
+			co, _, _ = runConn(1, &c2, o, ops)
+		}
 	} else {
 		co, _, _ = runConn(0, cc, o, ops)
 	}
